@@ -7,6 +7,7 @@ package main
 
 import (
 	stdasn1 "encoding/asn1"
+	"errors"
 	"fmt"
 	"math"
 	"math/big"
@@ -45,7 +46,28 @@ const (
 	kOptBigInt
 	kOptOctet
 	kOptBool
+	kOptInt64
+	kOptUint64
+	kWriteUnwrite // AddBytes(data) immediately followed by Unwrite(n) on the same Builder
+	kUnwrite      // Unwrite(n) on whatever the Builder of this level holds
+	kSetError
+	kAddValue    // AddValue(MarshalingValue writing AddUint16)
+	kAddValueErr // AddValue(MarshalingValue returning an error)
+	kPanicBuildError
+	kPanicOther
+	kUTCTime
 )
+
+// Sentinel errors / panic value handed to the Builder by the harness.
+var (
+	errSet     = errors.New("harness sentinel: SetError")
+	errMarshal = errors.New("harness sentinel: MarshalingValue.Marshal")
+	errBuild   = errors.New("harness sentinel: BuildError")
+)
+
+type userPanic struct{ id int }
+
+var thePanic = userPanic{id: 0x5a}
 
 // entry is one letter of the alphabet: an op with its concrete argument.
 type entry struct {
@@ -69,11 +91,22 @@ type entry struct {
 	err       string // documented Builder error class this op must raise ("" = none)
 	elemTag   int    // identifier octet when the op writes one ASN.1 element, else -1
 	lenLen    int    // kLP*: width of the length prefix
+	n         int    // kWriteUnwrite / kUnwrite: number of bytes rolled back
+	sentinel  error  // the error value the op hands to the Builder (SetError, AddValue, BuildError)
+	ext       bool   // extended letter: all programs of <= 2 nodes, and 3-node programs with context letters around it
+	ctx       bool   // context letter of the extended 3-node programs
+	huge      bool   // 16 MiB letter: thorough tier, directed programs only
+	noFixed   bool   // programs with this letter are not rebuilt with NewFixedBuilder (transient size differs from the final size)
 }
 
 var alphabet []*entry
 var byName = map[string]*entry{}
-var containers []int // indices of container entries
+var containers []int // indices of the core container entries
+var coreAll []int    // indices of the core letters (leaves and containers)
+var extAll []int     // indices of the extended letters
+var extContainers []int
+var ctxLeaves []int
+var hugeLeaves []int
 
 func pat(n int, mul, add byte) []byte {
 	d := make([]byte, n)
@@ -122,11 +155,28 @@ func add(e *entry) {
 		panic("duplicate entry " + e.name)
 	}
 	byName[e.name] = e
-	if e.container {
-		containers = append(containers, len(alphabet))
+	idx := len(alphabet)
+	switch {
+	case e.huge:
+		hugeLeaves = append(hugeLeaves, idx)
+	case e.ext:
+		extAll = append(extAll, idx)
+		if e.container {
+			extContainers = append(extContainers, idx)
+		}
+	default:
+		coreAll = append(coreAll, idx)
+		if e.container {
+			containers = append(containers, idx)
+		}
+	}
+	if e.ctx && !e.container {
+		ctxLeaves = append(ctxLeaves, idx)
 	}
 	alphabet = append(alphabet, e)
 }
+
+func addExt(e *entry) { e.ext = true; add(e) }
 
 func validOID(o []int) bool {
 	// X.660 / X.690 8.19: at least two arcs, first in 0..2, second < 40 unless first = 2, none negative.
@@ -291,6 +341,114 @@ func buildAlphabet() {
 	add(&entry{k: kASN1, name: "AddASN1(0x3f)", class: "AddASN1(high tag)", container: true, tag: 0x3f, err: "high-tag", elemTag: -1})
 	add(&entry{k: kOptASN1, name: "Optional[ReadOptionalASN1 0xa0] present AddASN1(0xa0)", class: "ReadOptionalASN1", container: true, optional: true, present: true, tag: xt, elemTag: xt})
 	add(&entry{k: kOptSkip, name: "Optional[SkipOptionalASN1 0xa0] present AddASN1(0xa0)", class: "SkipOptionalASN1", container: true, optional: true, present: true, tag: xt, elemTag: xt})
+	buildExtended()
+	for _, n := range []string{"AddUint8(1)", "AddBytes(len 1)", "AddASN1Boolean(true)", "Optional[ReadOptionalASN1 0xa0] absent",
+		"Optional[ReadOptionalASN1Integer(*int) 0xa0 default 7] absent"} {
+		e := byName[n]
+		if e == nil {
+			panic("no context letter " + n)
+		}
+		e.ctx = true
+		for k, a := range alphabet {
+			if a == e {
+				ctxLeaves = append(ctxLeaves, k)
+			}
+		}
+	}
+}
+
+const utcLayout = "060102150405Z0700" // X.680 47.3 with seconds: YYMMDDhhmmss then Z or +-hhmm
+
+// buildExtended: the letters added for the boundary / byte-order / tag /
+// never-called-API gaps. They are "extended" letters: see main.go for the
+// programs they appear in.
+func buildExtended() {
+	// fixed-width values whose octets all differ: a writer/reader pair that agrees on a wrong byte order is seen
+	addExt(&entry{k: kU16, name: "AddUint16(0x0102)", class: "AddUint16", u: 0x0102, enc: []byte{1, 2}, elemTag: -1})
+	addExt(&entry{k: kU24, name: "AddUint24(0x010203)", class: "AddUint24", u: 0x010203, enc: []byte{1, 2, 3}, elemTag: -1})
+	addExt(&entry{k: kU32, name: "AddUint32(0x01020304)", class: "AddUint32", u: 0x01020304, enc: []byte{1, 2, 3, 4}, elemTag: -1})
+	{
+		const v = 0x0102030405060708
+		z := big.NewInt(v)
+		addExt(&entry{k: kInt64, name: "AddASN1Int64(0x0102030405060708)", class: "AddASN1Int64", i: v, z: z, enc: mustStd(z, ""), elemTag: 0x02})
+		addExt(&entry{k: kUint64, name: "AddASN1Uint64(0x0102030405060708)", class: "AddASN1Uint64", u: v, z: z, enc: mustStd(z, ""), elemTag: 0x02})
+		zn := big.NewInt(-v)
+		addExt(&entry{k: kInt64, name: "AddASN1Int64(-0x0102030405060708)", class: "AddASN1Int64", i: -v, z: zn, enc: mustStd(zn, ""), elemTag: 0x02})
+	}
+	// raw lengths on both sides of the 1- and 2-octet length-prefix limits
+	for _, n := range []int{254, 255, 256, 65534, 65535, 65536} {
+		d := pat(n, 31, 7)
+		addExt(&entry{k: kBytes, name: fmt.Sprintf("AddBytes(len %d)", n), class: "AddBytes", data: d, enc: append([]byte{}, d...), elemTag: -1})
+	}
+	// tag number 30 (the largest low-tag-number form) in three classes, and the refused 0x1f
+	for _, t := range []byte{0xbe, 0x7e, 0x1e} {
+		addExt(&entry{k: kASN1, name: fmt.Sprintf("AddASN1(0x%02x)", t), class: "AddASN1", container: true, tag: cbasn1.Tag(t), elemTag: int(t)})
+	}
+	addExt(&entry{k: kASN1, name: "AddASN1(0x1f)", class: "AddASN1(high tag)", container: true, tag: 0x1f, err: "high-tag", elemTag: -1})
+	addExt(&entry{k: kASN1, name: "AddASN1(0xff)", class: "AddASN1(high tag)", container: true, tag: 0xff, err: "high-tag", elemTag: -1})
+	addExt(&entry{k: kOptASN1, name: "Optional[ReadOptionalASN1 0x9e] present AddASN1(0x9e)", class: "ReadOptionalASN1", container: true, optional: true, present: true, tag: 0x9e, elemTag: 0x9e})
+	addExt(&entry{k: kOptASN1, name: "Optional[ReadOptionalASN1 0x9e] absent", class: "ReadOptionalASN1", optional: true, tag: 0x9e, enc: []byte{}, elemTag: -1})
+	addExt(&entry{k: kOptSkip, name: "Optional[SkipOptionalASN1 0x9e] absent", class: "SkipOptionalASN1", optional: true, tag: 0x9e, enc: []byte{}, elemTag: -1})
+	// ReadOptionalASN1Integer with *int64 / *uint64 destinations
+	const xt = 0xa0
+	for _, v := range []int64{128, -129, math.MinInt64} {
+		addExt(&entry{k: kOptInt64, name: fmt.Sprintf("Optional[ReadOptionalASN1Integer(*int64) 0xa0 default 7] present AddASN1(0xa0){AddASN1Int64(%d)}", v), class: "ReadOptionalASN1Integer(*int64)",
+			optional: true, present: true, tag: xt, i: v, z: big.NewInt(v), defI: 7, enc: wrap(xt, mustStd(big.NewInt(v), "")), elemTag: xt})
+	}
+	for _, v := range []uint64{128, 1 << 63, math.MaxUint64} {
+		z := new(big.Int).SetUint64(v)
+		addExt(&entry{k: kOptUint64, name: fmt.Sprintf("Optional[ReadOptionalASN1Integer(*uint64) 0xa0 default 7] present AddASN1(0xa0){AddASN1Uint64(%d)}", v), class: "ReadOptionalASN1Integer(*uint64)",
+			optional: true, present: true, tag: xt, u: v, z: z, defI: 7, enc: wrap(xt, mustStd(z, "")), elemTag: xt})
+	}
+	for _, d := range []int64{0, 7} {
+		addExt(&entry{k: kOptInt64, name: fmt.Sprintf("Optional[ReadOptionalASN1Integer(*int64) 0xa0 default %d] absent", d), class: "ReadOptionalASN1Integer(*int64)",
+			optional: true, tag: xt, defI: d, enc: []byte{}, elemTag: -1})
+		addExt(&entry{k: kOptUint64, name: fmt.Sprintf("Optional[ReadOptionalASN1Integer(*uint64) 0xa0 default %d] absent", d), class: "ReadOptionalASN1Integer(*uint64)",
+			optional: true, tag: xt, defI: d, enc: []byte{}, elemTag: -1})
+	}
+	// GeneralizedTime west of UTC with a half-hour offset
+	{
+		t := time.Date(2020, 6, 15, 12, 30, 45, 0, time.FixedZone("", -12600))
+		addExt(&entry{k: kTime, name: "AddASN1GeneralizedTime(zoned -0330)", class: "AddASN1GeneralizedTime", t: t, enc: mustStd(t, "generalized"), elemTag: 0x18})
+	}
+	// UTCTime: cryptobyte has a reader only; the element is written with AddASN1(UTCTime){AddBytes(text)}
+	for _, c := range []struct {
+		n string
+		t time.Time
+	}{
+		{"1950", time.Date(1950, 1, 1, 0, 0, 0, 0, time.UTC)},
+		{"1999", time.Date(1999, 12, 31, 23, 59, 59, 0, time.UTC)},
+		{"2000", time.Date(2000, 1, 1, 0, 0, 0, 0, time.UTC)},
+		{"2049", time.Date(2049, 12, 31, 23, 59, 59, 0, time.UTC)},
+		{"zoned -0330", time.Date(2020, 6, 15, 12, 30, 45, 0, time.FixedZone("", -12600))},
+	} {
+		text := []byte(c.t.Format(utcLayout))
+		enc := mustStd(c.t, "utc")
+		if string(enc) != string(wrap(0x17, text)) {
+			panic("harness: UTCTime text disagrees with encoding/asn1 for " + c.n)
+		}
+		addExt(&entry{k: kUTCTime, name: "AddASN1(UTCTime){AddBytes(" + c.n + ")}", class: "UTCTime", t: c.t, data: text, enc: enc, elemTag: 0x17})
+	}
+	// Unwrite
+	for _, c := range []struct{ w, n int }{{2, 2}, {3, 1}, {300, 45}, {300, 44}, {1, 0}} {
+		d := pat(c.w, 17, 1)
+		addExt(&entry{k: kWriteUnwrite, name: fmt.Sprintf("AddBytes(len %d);Unwrite(%d)", c.w, c.n), class: "AddBytes;Unwrite", data: d, n: c.n,
+			enc: append([]byte{}, d[:c.w-c.n]...), elemTag: -1, noFixed: true})
+	}
+	for _, n := range []int{0, 1, 2} {
+		addExt(&entry{k: kUnwrite, name: fmt.Sprintf("Unwrite(%d)", n), class: "Unwrite", n: n, enc: []byte{}, elemTag: -1, noFixed: true})
+	}
+	// error plumbing
+	addExt(&entry{k: kSetError, name: "SetError(sentinel)", class: "SetError", err: "set-error", sentinel: errSet, elemTag: -1})
+	addExt(&entry{k: kAddValue, name: "AddValue(Marshal: AddUint16(0x0a0b))", class: "AddValue", u: 0x0a0b, enc: []byte{0x0a, 0x0b}, elemTag: -1})
+	addExt(&entry{k: kAddValueErr, name: "AddValue(Marshal: error)", class: "AddValue(error)", err: "marshal-error", sentinel: errMarshal, elemTag: -1})
+	addExt(&entry{k: kPanicBuildError, name: "panic(BuildError{sentinel})", class: "panic(BuildError)", enc: []byte{}, sentinel: errBuild, elemTag: -1, noFixed: true})
+	addExt(&entry{k: kPanicOther, name: "panic(other value)", class: "panic(other)", enc: []byte{}, elemTag: -1, noFixed: true})
+	// 16 MiB: four-octet DER length, and the 3-octet length-prefix limit (thorough tier, directed programs)
+	for _, n := range []int{1<<24 - 1, 1 << 24} {
+		d := pat(n, 29, 3)
+		add(&entry{k: kBytes, name: fmt.Sprintf("AddBytes(len %d)", n), class: "AddBytes", data: d, enc: d, elemTag: -1, huge: true})
+	}
 }
 
 // selfTestReference cross-checks the hand-written DER header against encoding/asn1.
